@@ -129,7 +129,8 @@ impl CheckInternal for fol::Formula {
                     }
 
                     // Check variables in quantifications are the same as the terms in the atom
-                    if uniques != terms_as_vars {
+                    // and that no variable occurs twice as an argument (e.g. `p(X, X)`)
+                    if uniques != terms_as_vars || terms_as_vars.len() != a.terms.len() {
                         return Err(ProofOutlineError::DefinedPredicateVariableListMismatch(
                             self.clone(),
                         ));
